@@ -26,7 +26,7 @@
 From Coq Require Import List NArith ZArith Bool.
 From ApiFu Require Import Base.Sexp Fut.Plan Fut.Future Fut.ExecAsync Fut.ExecSync Fut.Denote Fut.SubPerm
      Fut.Live Fut.AsyncWrap Fut.AsyncRun Fut.FutSpec Fut.VisibleProofs Fut.SyncMust Fut.FutProofs
-     Fut.BridgeC01 Fut.BridgeProofs Fut.BridgeCompose.
+     Fut.BridgeC01 Fut.BridgeProofs Fut.BridgeNulls Fut.BridgeCompose.
 From ApiFu Require Exe.ExecData Exe.ExecSpec Exe.ExecModel Exe.ExecHyps.
 Import ListNotations.
 
@@ -183,10 +183,14 @@ Proof. exact same_error_refuted_by_schedule. Qed.
     GraphQL execution algorithm, which is also the data of C01's synchronous executor model.
 
     PARTIAL — full statement: "... the same response", i.e. data AND the error for every visible
-    failure-null.  Proved: data.  Gap: C01's [failure_nulls] / [all_errors] (paths with source
-    locations) are not yet related to this plan's [visible_nulls] / [sites] (paths with error
-    kinds); the error clauses hold on the C02 side ([conforms]) and on the C01 side
-    (C01_exec_errors_complete) separately, each against its own reading of the same positions. *)
+    failure-null.  Proved: data ([…_data_partial]) and the positions of the failure-nulls
+    ([C02_bridge_null_paths], [C02_every_schedule_explains_reference_nulls_partial]: the reference's
+    failure-nulls sit at exactly the response paths of the plan's visible nulls, and each of them
+    gets an error under every schedule).  Gap: the error *candidates* — C01's errors carry source
+    locations and the reference throws nothing when CollectFields runs out of fuel, this plan's
+    carry an error kind and an out-of-fuel position is a [VBad]; that the error reported for a
+    null is one C01's reference admits there is C01_exec_errors_complete on the C01 side and
+    [conforms] on this side, not yet one statement. *)
 Theorem C02_bridge_data : forall code S D E fuel W,
   data_shape (plan_of code S D E fuel W) =
   tr_data code (ExecSpec.data (ExecSpec.exec_spec S D E fuel W)).
@@ -204,6 +208,20 @@ Theorem C02_every_schedule_yields_ExecuteRequest_data_partial :
             r_data r = tr_data code (ExecSpec.data (ExecSpec.exec_spec S D E fuel W)) /\
             conforms root (r_data r) (r_errors r).
 Proof. exact schedule_yields_reference_data. Qed.
+
+Theorem C02_bridge_null_paths : forall code S D E fuel W,
+  null_paths (ExecSpec.failure_nulls (ExecSpec.exec_spec S D E fuel W)) =
+  site_paths (visible_nulls (plan_of code S D E fuel W)).
+Proof. exact bridge_null_paths. Qed.
+
+Theorem C02_every_schedule_explains_reference_nulls_partial :
+  forall (code : ExecData.json -> Z) S D E fuel W md root sigma fuelr jfuel,
+  same_outcomes root (plan_of code S D E fuel W) ->
+  fair sigma -> count_async root <= fuelr -> resp_depth root < jfuel ->
+  exists r, run fixed_flags sigma md fuelr jfuel root = Done r /\
+            null_paths (ExecSpec.failure_nulls (ExecSpec.exec_spec S D E fuel W)) = site_paths (visible_nulls root) /\
+            Forall (fun x => exists e, In e (r_errors r) /\ lands e x) (visible_nulls root).
+Proof. exact schedule_yields_reference_nulls. Qed.
 
 (** ** supporting statements *)
 
@@ -304,6 +322,8 @@ Print Assumptions C02_same_error_refuted.
 Print Assumptions C02_same_error_refuted_by_schedule.
 Print Assumptions C02_bridge_data.
 Print Assumptions C02_every_schedule_yields_ExecuteRequest_data_partial.
+Print Assumptions C02_bridge_null_paths.
+Print Assumptions C02_every_schedule_explains_reference_nulls_partial.
 Print Assumptions C02_conforms_tag_blind.
 Print Assumptions C02_visible_nulls_agree.
 Print Assumptions C02_conforms_by_reading.
